@@ -3,11 +3,11 @@ from fractions import Fraction
 from pcv import core, capio, sccgen
 
 
-def impl_read(text, offset=0):
+def impl_read(text, offset=0, reader=None):
     import pycaption
     from pycaption.exceptions import CaptionLineLengthError, CaptionReadTimingError, CaptionReadNoCaptions
     try:
-        cs = pycaption.SCCReader().read(text, offset=offset)
+        cs = (reader or pycaption.SCCReader()).read(text, offset=offset)
     except CaptionLineLengthError as e:
         return ("err", "lineLength", e.args[0])
     except CaptionReadTimingError as e:
